@@ -522,6 +522,8 @@ def check(ctx):
 
     obs.append(ctx.shared('c03', 'C03.9', 'C02.10', 'conservation is shown per entry point under run-to-completion; that needs the handlers other devices call back into '
                           'during a hand-over to move no part (a synchronous hand-over from a notification re-enters the sender while its slot is still full: parts are duplicated or dropped)'))
+    obs.append(ctx.shared('c05', 'C05.3', 'C02.13', 'the buffer stores parts in a list, outside the slot model of C02.4: a stored part is neither lost nor delivered twice only if '
+                          'the item offered downstream is the head and the item removed after a True answer is that same head'))
     obs.append(dv.falsy_default_obligation(ctx, 'C02.12', ['Source', 'PartGenerator', 'Part', 'Batch'], 'the part budget of a source is the number it was given'))
     return obs
 
